@@ -176,6 +176,59 @@ def vector_shapes(rep, thorough):
     return events
 
 
+def history_drive(arg):
+    """runs in a worker process (registrations and caches stay there): the SAME input measured after 0, 60, 120, 240 earlier
+    parses of it - plain, and (variant classes) after an application registered one more variant parser through the public
+    register_variant_parser API.  The work for a fixed input is a constant of the class, not of the process history."""
+    qual, _tier = arg
+    from cryptoparser.common.base import VariantParsableBase
+    from cryptoparser.common.parse import ParsableBase
+    from cryptoparser.common.exception import InvalidType
+    cls = corpus.resolve(qual)
+    seeds = sorted([s for s in corpus.by_class().get(cls, []) if 0 < len(s) <= 400], key=len)[:1]
+    events = []
+    name = cls.__module__.replace('cryptoparser.', '') + '.' + cls.__qualname__
+
+    def series(shape, data):
+        points, done = [], 0
+        for target in (0, 60, 120, 240):
+            while done < target:
+                try:
+                    cls.parse_immutable(data)
+                except Exception:  # pylint: disable=broad-except
+                    pass
+                done += 1
+            out, steps, depth = measure(cls, data)
+            done += 1
+            points.append({'size': len(data), 'declared': target, 'steps': steps, 'depth': depth, 'out': out})
+        events.append({'cls': name, 'shape': shape, 'points': points, 'seed_hex': data[:60].hex(), 'history': True})
+
+    for sd in seeds:
+        for data, label in ((sd, 'accepted'), (sd[:-1] + bytes([sd[-1] ^ 0x55]) + b'zz', 'altered')):
+            series('history-repeat-' + label, data)
+    # every variant class reachable from this class gets one more registered parser (it never matches)
+    class NeverMatches(ParsableBase):
+        @classmethod
+        def _parse(cls, parsable):
+            raise InvalidType()
+
+        def compose(self):
+            return b''
+    registered = 0
+    for v in corpus.all_subclasses(VariantParsableBase):
+        try:
+            v._get_variants()          # abstract intermediate classes raise
+            v.register_variant_parser('verif-unknown-vendor', NeverMatches)
+            registered += 1
+        except Exception:  # pylint: disable=broad-except
+            continue
+    if registered:
+        for sd in seeds:
+            for data, label in ((sd, 'accepted'), (sd[:-1] + bytes([sd[-1] ^ 0x55]) + b'zz', 'altered')):
+                series('history-registered-variant-' + label, data)
+    return events
+
+
 def run(rep):
     from ..par import pmap
     thorough = rep.tier == 'thorough'
@@ -190,6 +243,9 @@ def run(rep):
     for evs in pmap(drive, [(c.__module__ + '.' + c.__qualname__, rep.tier) for c in classes]):
         events += evs
     events += vector_shapes(rep, thorough)
+    # one worker process per class: whatever the history series register or cache dies with the worker
+    for evs in pmap(history_drive, [(c.__module__ + '.' + c.__qualname__, rep.tier) for c in classes], chunk=1):
+        events += evs
     for e in events:
         rep.case(digest([e['cls'], e['shape'], e['seed_hex']]))
     rep.extra['series'] = len(events)
@@ -202,7 +258,7 @@ def run(rep):
                 'depth = maximum Python call depth.' % (16384 if thorough else 4096, 8192 if thorough else 2048))
     rep.sample(events[0])
     rep.sample(events[-1])
-    slim = [{'points': e['points']} for e in events]
+    slim = [{'points': e['points'], 'history': bool(e.get('history'))} for e in events]
     traces = [slim[i:i + 2000] for i in range(0, len(slim), 2000)]
     for tup, ti, ei, _ in judge.run(rep, 'Trace_Growth', list(enumerate(traces)), 'growth'):
         e = events[ti * 2000 + ei]
